@@ -929,7 +929,7 @@ fn go_session(ctx: &Ctx, idx: usize, seeds: &[String], prop: &str) {
     // that the GUI's next command meets the engine in a state it otherwise passes in microseconds
     let mut env: Vec<(String, String)> = Vec::new();
     if idx % 4 == 3 {
-        let point = ["search.post_bestmove=sleep:200", "search.exit=sleep:200", "search.pre_bestmove=sleep:8", "uci.go.spawned=sleep:5", "search.enter=sleep:8"][(idx / 4) % 5];
+        let point = ["search.post_bestmove=sleep:200", "search.exit=sleep:200", "search.pre_bestmove=sleep:8", "uci.go.spawned=sleep:5", "search.enter=sleep:8", "search.iter_done=sleep:3"][(idx / 4) % 6];
         env.push(("RCE_VERIF_SCHED".to_string(), point.to_string()));
         out::count("C09.sessions_with_a_widened_window", 1);
     }
@@ -987,7 +987,15 @@ fn go_session(ctx: &Ctx, idx: usize, seeds: &[String], prop: &str) {
         let fen = *rng.pick(&["7k/5K2/6Q1/8/8/8/8/8 b - - 0 1", "R5k1/5ppp/8/8/8/8/5PPP/6K1 b - - 0 1", "7k/5Q2/6K1/8/8/8/8/8 b - - 0 1", "K1k5/P7/8/8/8/8/8/8 w - - 0 1"]);
         e.send(&format!("position fen {fen}"));
         e.send(*rng.pick(&["go depth 2", "go movetime 10", "go nodes 50", "go wtime 100 btime 100"]));
-        let _ = e.wait_out(400, "bestmove");
+        // its answer must be in before the session proper starts, or it would be taken for the
+        // answer to the next go (with a sleep at every iteration end it can take a second)
+        if e.wait_out(6_000, "bestmove").is_none() {
+            e.send("stop");
+            if e.wait_out(3_000, "bestmove").is_none() {
+                out::inconclusive("C09 session: the go on a finished game was not answered (not judged; session abandoned)", 1);
+                return;
+            }
+        }
         out::count("C09.sessions_starting_with_a_go_on_a_finished_game", 1);
     }
     e.send(&g.command());
